@@ -1,5 +1,5 @@
 import UtilModel.Lemmas.DateBasics
-import UtilModel.Lemmas.CodeTies
+import UtilModel.Lemmas.CodeTiesDate
 /-!
 # C07 — Date ordering and arithmetic agree with the calendar
 
